@@ -101,6 +101,10 @@ def run(c: Check):
     out2, _ = c.go_harness("internal/dnsserver", "^TestVerifC08Sock$", files=["c08_test.go", "c08sock_test.go", "vlab_test.go"],
                            env={"VERIF_SOCK_N": n_sock}, timeout=1500)
     ev2 = read_ndjson(out2)
+    dead = [e for e in ev2 if "control=silent" in (e.get("note") or "")]
+    if dead:
+        raise Undecided("socket laboratory: %d queries AND their controls got no reply at all (%s): the laboratory, not the "
+                        "server, is at fault" % (len(dead), sorted(set(e["via"] for e in dead))))
     if len(ev) < n_pkg or len(ev2) < n_sock + 9:
         raise Undecided("harness recorded %d + %d cases, expected %d + %d" % (len(ev), len(ev2), n_pkg, n_sock + 9))
     allev = ev + ev2
